@@ -452,6 +452,7 @@ type FuncSpec struct {
 	Pure          bool // modifies nothing and result is a function of args+heap (trusted/extern use)
 	MayPanic      bool // explicit panics are part of the contract (not an obligation)
 	KFs           []KFAssume
+	Propagates    bool
 	WorkerEnsures []*SExpr
 	ChanNonNil    bool
 	SiteKFs       map[string][]KFAssume
@@ -643,6 +644,8 @@ func parseClause(f *FuncSpec, word, rest string) error {
 			return err
 		}
 		f.WorkerEnsures = append(f.WorkerEnsures, e)
+	case "propagates":
+		f.Propagates = true
 	case "chan-values-nonnil":
 		f.ChanNonNil = true
 	case "trusted":
